@@ -3,6 +3,7 @@ package props
 import (
 	"fmt"
 	"math"
+	"strings"
 	"time"
 
 	"github.com/cinar/indicator/v2/asset"
@@ -302,6 +303,27 @@ func c07Shapes() []c07Shape {
 				return noLossModel(inverseModel(w[0]), c)
 			},
 			safe: func(out []strategy.Action, c []float64, _ float64) string { return noLossSafe(out, c) }},
+		c07Shape{name: "and(and(s0,s1),s2)", k: 3,
+			build: func(subs []strategy.Strategy, _ float64) strategy.Strategy {
+				return strategy.NewAndStrategy("outer", strategy.NewAndStrategy("inner", subs[0], subs[1]), subs[2])
+			},
+			model: func(w [][]strategy.Action, c []float64, _ float64) []strategy.Action {
+				return voteModel("and", [][]strategy.Action{voteModel("and", w[:2], len(c)), w[2]}, len(c))
+			}},
+		c07Shape{name: "or(and(s0,s1),s2)", k: 3,
+			build: func(subs []strategy.Strategy, _ float64) strategy.Strategy {
+				return strategy.NewOrStrategy("outer", strategy.NewAndStrategy("inner", subs[0], subs[1]), subs[2])
+			},
+			model: func(w [][]strategy.Action, c []float64, _ float64) []strategy.Action {
+				return voteModel("or", [][]strategy.Action{voteModel("and", w[:2], len(c)), w[2]}, len(c))
+			}},
+		c07Shape{name: "majority(or(s0,s1),s2,split(s0,s2))", k: 3,
+			build: func(subs []strategy.Strategy, _ float64) strategy.Strategy {
+				return strategy.NewMajorityStrategyWith("outer", []strategy.Strategy{strategy.NewOrStrategy("inner", subs[0], subs[1]), subs[2], strategy.NewSplitStrategy(subs[0], subs[2])})
+			},
+			model: func(w [][]strategy.Action, c []float64, _ float64) []strategy.Action {
+				return voteModel("majority", [][]strategy.Action{voteModel("or", w[:2], len(c)), w[2], splitModel(w[0], w[2])}, len(c))
+			}},
 		c07Shape{name: "noloss(and/k2)", k: 2,
 			build: func(subs []strategy.Strategy, _ float64) strategy.Strategy {
 				return decorator.NewNoLossStrategy(strategy.NewAndStrategy("and", subs...))
@@ -316,10 +338,26 @@ func c07Shapes() []c07Shape {
 
 func c07Run(cc *run.Case, sh c07Shape, words [][]strategy.Action, closes []float64, pct float64) bool {
 	subs := make([]strategy.Strategy, len(words))
+	stubs := make([]*stub, len(words))
 	for i, w := range words {
-		subs[i] = &stub{name: fmt.Sprintf("stub%d", i), word: w}
+		stubs[i] = &stub{name: fmt.Sprintf("stub%d", i), word: w}
+		subs[i] = stubs[i]
 	}
-	got := runStrat(sh.build(subs, pct), closesToSnaps(closes))
+	inst := sh.build(subs, pct)
+	if len(closes) > 0 && len(closes)%2 == 1 {
+		// The combinator instance first serves another history that ends with an
+		// open position at a higher price level (as when one instance is used
+		// for several assets); the specified function must still hold afterwards.
+		for _, st := range stubs {
+			st.word = []strategy.Action{strategy.Buy, strategy.Hold, strategy.Hold}
+		}
+		runStrat(inst, closesToSnaps([]float64{closes[0] * 50, closes[0] * 60, closes[0] * 55}))
+		for i, st := range stubs {
+			st.word = words[i]
+		}
+		cc.Count("reused_instance_runs", 1)
+	}
+	got := runStrat(inst, closesToSnaps(closes))
 	cc.Count("runs", 1)
 	want := sh.model(words, closes, pct)
 	detail := func() map[string]any {
@@ -388,7 +426,7 @@ func c07(ctx *run.Ctx) {
 			for rep := 0; rep < ctx.Pick(150, 6000); rep++ {
 				n := cc.R.Range(0, 200)
 				k := sh.k
-				if sh.name[:3] == "and" || sh.name[:2] == "or" || sh.name[:3] == "maj" {
+				if strings.HasPrefix(sh.name, "and/") || strings.HasPrefix(sh.name, "or/") || strings.HasPrefix(sh.name, "majority/") {
 					k = cc.R.Range(1, 6)
 				}
 				words := make([][]strategy.Action, k)
